@@ -1292,6 +1292,12 @@ class Exec:
             elif how == "too-deep":
                 raise Unsupported("call chain deeper than the inlining bound (%d) at %s: the callee's effects are not followed" % (self.policy.inline_depth, name))
             else:
+                # the callee is judged on its own under the invariants that hold between calls; here it runs in the middle of one: its
+                # receiver may carry pending writes to bookkeeping fields (`self.index += 1; self.spread(); self.index = wrap`)
+                if recv is not None:
+                    for k_, v_ in st.store.m.items():
+                        if k_[:len(recv)] == recv and len(k_) > len(recv) and not (isinstance(v_, tuple) and v_ and v_[0] in ("store", "fill")):
+                            raise Unsupported("the summarised method %s is called on a receiver whose field `%s` was modified earlier in this call: its own analysis assumes the state between calls" % (name, pstr(k_)))
                 # an uninterpreted crate callee (a loopy `&self` scan): nothing through which it could write may be handed to it —
                 # looked for in the argument VALUES (a sub-slice, an iterator, an Option holding the borrow), as for std callees
                 for i_, a in enumerate(args):
@@ -1533,6 +1539,12 @@ class Exec:
     def std_call(self, st, callee, name, args, t):
         n = callees.strip_turbofish(name)
         dv = [self.deref_val(st, a) for a in args]
+        if re.search(r"<impl f64>::recip$", n) and len(args) == 1:
+            fn_, blk_, span_, si_ = self.cur_site if self.cur_site[0] is not None else (None, None, t["span"], None)
+            if fn_ is not None:
+                self.sites.append({"fn": fn_.label, "path": fn_.path, "block": blk_, "stmt": si_, "what": "fdiv", "kind": "Div", "operands": {"num": cf(1.0), "den": args[0]},
+                                   "facts": dict(st.facts), "span": t["span"], "root_depth": self.depth})
+            return fold("/", cf(1.0), args[0])
         if re.search(r"<impl f64>::abs$", n):
             return ("abs", dv[0])
         if re.search(r"<impl f64>::max$", n):
@@ -1871,6 +1883,10 @@ class Exec:
         return seen
 
 
+def short_path(p):
+    return p.split("::")[-1]
+
+
 def fn_params(fn):
     """names for the formal parameters from debug info"""
     names = {}
@@ -1904,7 +1920,10 @@ def evaluate(F, fn, policy=None, arg_terms=None, self_root="self", canon=False):
         if arg_terms and i - 1 < len(arg_terms) and arg_terms[i - 1] is not None:
             v = arg_terms[i - 1]
         elif ty.get("k") == "ref":
-            root = self_root if nm == "self" else nm
+            to_ = ty.get("to") or {}
+            is_recv = nm == "self" or (fn.self_struct is not None and i == 1 and to_.get("k") == "adt" and short_path(to_.get("path", "")) == fn.self_struct
+                                         and "self" not in names.values())
+            root = self_root if is_recv else nm   # (`fn seek_end(sma: &mut Self)`: the receiver by another name)
             v = ("ref", (root,), None)
             to = ty.get("to") or {}
             if to.get("k") == "adt" and to.get("krate") != F.d["crate"]:
